@@ -753,6 +753,12 @@ Eval vm_compute in mismatches (fun '(s, x, r) => close (input_norm Q 0%%Q 1%%Q q
         "the coefficient-extraction formula (repaired variant) equals the dilation reference: checked exactly (Qeq) on every generated case, not a theorem",
         "unitarity of the symmetric-power representation (table sums to one): checked exactly on every generated case without post-selection, not a theorem",
     ]
+    # one witness per distinct key first (the replay file keeps the first 20 violations)
+    seen_keys, first, rest = set(), [], []
+    for v in chk.violations:
+        (rest if v["key"] in seen_keys else first).append(v)
+        seen_keys.add(v["key"])
+    chk.violations = first + rest
     dbg("violation keys: %s" % sorted({v["key"] for v in chk.violations}))
     dbg("known hits: %s" % sorted({k["key"] for k, _ in chk.known_hits}))
     dbg("corr_broken: %s" % [c[:300] for c in corr_broken[:6]])
